@@ -301,6 +301,11 @@ def build():
     p.spec_funcs["shm"] = lambda interp, b: interp.getattr(b, "supports_sharedmem", None, default=False)
     p.spec_funcs["thr"] = lambda interp, b: interp.getattr(b, "uses_threads", None, default=False)
 
+    # a hint and a requirement contradict each other only when they are given at the same level (both explicitly, or both by contexts): an
+    # explicit argument wins over the enclosing contexts, and prefer is only a hint - a context's prefer='processes' cannot make an explicit
+    # require='sharedmem' fail, nor the other way round (former finding K19)
+    p.spec_funcs["same_level"] = lambda interp, prefer, require: (prefer is not SENT_B["prefer"]) == (require is not SENT_B["require"])
+    CONTRADICTION = "(resolved('prefer', prefer) == 'processes' and resolved('require', require) == 'sharedmem' and same_level(prefer, require))"
     gab = Contract(
         PAR, "_get_active_backend", props=["C17"], globals=GLOB_B,
         setup=lambda interp, env: interp.global_lookup("_backend", env.module),
@@ -311,14 +316,14 @@ def build():
             "explicit_backend_beats_prefer": "implies(ctx_backend() is not None and not (resolved('require', require) == 'sharedmem' and not shm(ctx_backend())), "
                                              "same_obj(result[0], ctx_backend()))",
             "prefer_threads_hint": "implies(ctx_backend() is None and resolved('prefer', prefer) == 'threads', thr(result[0]) is True)",
-            "prefer_processes_hint": "implies(ctx_backend() is None and resolved('prefer', prefer) == 'processes', thr(result[0]) is False)",
+            "prefer_processes_hint": "implies(ctx_backend() is None and resolved('prefer', prefer) == 'processes' and resolved('require', require) != 'sharedmem', thr(result[0]) is False)",
             "valid_settings": "resolved('prefer', prefer) in ('processes', 'threads', None) and resolved('require', require) in ('sharedmem', None)"
-                              " and not (resolved('prefer', prefer) == 'processes' and resolved('require', require) == 'sharedmem')",
+                              " and not " + CONTRADICTION,
             "no_config_write": "n_events('tlocal-write') == 0",
         },
         exsures={"ValueError": {"only_invalid": "not (resolved('prefer', prefer) in ('processes', 'threads', None)) or "
                                                  "not (resolved('require', require) in ('sharedmem', None)) or "
-                                                 "(resolved('prefer', prefer) == 'processes' and resolved('require', require) == 'sharedmem')"}},
+                                                 + CONTRADICTION}},
     )
     p.add(gab)
     # The same function where multiprocessing is not available (JOBLIB_MULTIPROCESSING=0, or platforms without working semaphores): only the
